@@ -2,12 +2,13 @@
 # MANIFEST.setup_cmd: build the framework from files on disk only (offline).
 set -e
 cd "$(dirname "$0")"
+ROOT="$(pwd)"
 export CARGO_NET_OFFLINE=true
 mkdir -p .build
 ( cd lean && lake build Norad driver )
 [ -f harness/Cargo.lock ] || cp /repo/Cargo.lock harness/Cargo.lock
-( cd harness && CARGO_TARGET_DIR=/verif/.build/target cargo build --release --offline )
-( cd harness && CARGO_TARGET_DIR=/verif/.build/target-par cargo build --release --offline --features par )
-( cd harness && CARGO_TARGET_DIR=/verif/.build/target-kurbo cargo build --release --offline --features kurbo )
-( cd harness && CARGO_TARGET_DIR=/verif/.build/target-debug cargo build --offline )
+( cd harness && CARGO_TARGET_DIR="$ROOT"/.build/target cargo build --release --offline )
+( cd harness && CARGO_TARGET_DIR="$ROOT"/.build/target-par cargo build --release --offline --features par )
+( cd harness && CARGO_TARGET_DIR="$ROOT"/.build/target-kurbo cargo build --release --offline --features kurbo )
+( cd harness && CARGO_TARGET_DIR="$ROOT"/.build/target-debug cargo build --offline )
 echo setup-ok
